@@ -9,6 +9,7 @@ import (
 	"path"
 	"strings"
 	"sync"
+	"time"
 )
 
 // memLoader serves templates from a map. Names are slash-separated; a name
@@ -21,6 +22,7 @@ type memLoader struct {
 	hits   map[string]int // successful fetches per path
 	misses map[string]int
 	failOn map[string]bool // names that are temporarily unloadable
+	delay  time.Duration   // widens race windows in concurrent batches (never an oracle)
 }
 
 func newMemLoader(files map[string]string) *memLoader {
@@ -40,6 +42,9 @@ func vfsAbs(base, name string) string {
 func (l *memLoader) Abs(base, name string) string { return vfsAbs(base, name) }
 
 func (l *memLoader) Get(p string) (io.Reader, error) {
+	if d := l.getDelay(); d > 0 {
+		time.Sleep(d)
+	}
 	l.mu.Lock()
 	defer l.mu.Unlock()
 	l.gets = append(l.gets, p)
@@ -58,6 +63,18 @@ func (l *memLoader) Get(p string) (io.Reader, error) {
 	}
 	l.hits[p]++
 	return bytes.NewReader([]byte(s)), nil
+}
+
+func (l *memLoader) getDelay() time.Duration {
+	l.mu.Lock()
+	defer l.mu.Unlock()
+	return l.delay
+}
+
+func (l *memLoader) setDelay(d time.Duration) {
+	l.mu.Lock()
+	l.delay = d
+	l.mu.Unlock()
 }
 
 func (l *memLoader) set(name, content string) {
